@@ -14,8 +14,6 @@ Helper lemmas live in Proofs/Formula*.lean. All theorems are for unbounded nesti
 -/
 import ChemModel.Proofs.FormulaReject3
 
-deriving instance DecidableEq for Except
-
 namespace ChemModel.C01
 open ChemModel.Formula ChemModel.Gen
 
